@@ -20,6 +20,7 @@ mod loop_;
 mod nodeabs;
 mod hll;
 mod hostq;
+mod rumqtt;
 
 use common::*;
 use std::path::{Path, PathBuf};
@@ -51,6 +52,7 @@ fn replay_file(comp: &str, path: &Path, out: &mut Out) {
         "nodeabs" => nodeabs::replay(&desc, &ops, out),
         "hll" => hll::replay(&desc, &ops, out),
         "hostq" => hostq::replay(&desc, &ops, out),
+        "rumqtt" => rumqtt::replay(&desc, &ops, out),
         _ => panic!("unknown component"),
     }
 }
@@ -161,6 +163,7 @@ fn main() {
         "nodeabs" => nodeabs::run(&args, &mut out),
         "hll" => hll::run(&args, &mut out),
         "hostq" => hostq::run(&args, &mut out),
+        "rumqtt" => rumqtt::run(&args, &mut out),
         _ => {
             eprintln!("unknown component {}", comp);
             std::process::exit(2)
